@@ -422,11 +422,7 @@ func c18RawCheckResponse(x *c18Exec, idx int, data []byte, rerr error, keyPfx, t
 	if !bytes.Equal(r.body, want) {
 		x.fail(keyPfx+"response-body-altered", "%s: response body of %d bytes differs from the %d bytes the handler wrote", tag, len(r.body), len(want))
 	}
-	wt := http.Header{}
-	for k, v := range c18RespTrailer(m, idx) {
-		wt[strings.ToLower(k)] = v
-	}
-	if d := c18TrailerDiff("response trailer", wt, r.trailer); d != "" {
+	if d := c18TrailerDiff("response trailer", c18RespTrailer(m, idx), r.trailer); d != "" {
 		x.fail(keyPfx+"response-trailer-altered", "%s: %s", tag, d)
 	}
 }
@@ -581,7 +577,7 @@ func c18RawPeer(ctx context.Context, x *c18Exec, conn *quic.Conn, sc c18Script, 
 		if so.calls > 0 && !bytes.HasPrefix(m.body, so.body) {
 			x.fail("raw-abort:request-body-altered", "%s: the %d bytes the handler read are not a prefix of what the peer sent", tag, len(so.body))
 		}
-		if c.Act == 2 {
+		if c.Act == 2 && (m.cl < 0 || m.cl == len(m.body)) {
 			// STOP_SENDING only concerns the response direction: the request is complete
 			c18RawCheckHandler(x, 0, m, "raw-abort:stop-sending:", tag)
 		}
